@@ -636,6 +636,22 @@ def execute(doc):
     elif kind == 'purity':
         calls = list(SWEEP_CALLS) + ['compose'] + list(SWEEP_CALLS) + ['compose', 'repr'] + list(SWEEP_CALLS)
         for number, hexdata in enumerate(doc['inputs']):
+            # two objects parsed from the same bytes hold no mutable object in common (whatever it is: a default,
+            # an interned item, a parameter object handed out by a class-level cache)
+            spec = ['mutated', doc['cls'], hexdata, []]
+            try:
+                one, other = _build_subject(spec), _build_subject(spec)
+            except Exception:  # pylint: disable=broad-except
+                one = other = None
+            if one is not None and other is not None:
+                shared = _shared_mutable(one, other)
+                res.stats['probe.two_parses_scanned_for_shared_mutable_objects'] += 1
+                if shared:
+                    res.violation((PROPERTY, 'objects-share-state', shared),
+                                  'objects do not share mutable state, so editing one message never changes another',
+                                  'two %s objects parsed from the same %d bytes both hold the same mutable %s object' % (
+                                      type(one).__name__, len(hexdata) // 2, shared))
+                    break
             for cycle in range(3):
                 _exec_observe({'kind': 'observe', 'subject': ['mutated', doc['cls'], hexdata, []],
                                'calls': calls if cycle == 0 else list(SWEEP_CALLS), 'break': number + cycle * 7}, res)
